@@ -245,6 +245,17 @@ class FuncGen:
     def generate(self):
         body = [('i32.const', self.r.randint(3, 24)), ('local.set', self.fuel)]
         body += self.stmts(self.depth)
+        if self.r.random() < 0.2:
+            # the function ends in dead code: surplus operands of any type are still on the stack at an explicit `return`
+            # (they are discarded), and the function's `end` is reached with a polymorphic stack
+            for _ in range(self.r.randint(1, 3)):
+                body += self.leaf(self.r.choice(self.p.types))
+            if self.result:
+                body += self.expr(self.result, self.depth)
+            body += [('return',)]
+            if self.r.random() < 0.3:
+                body += self.zoo_unit()
+            return body
         if self.result:
             body += self.expr(self.result, self.depth)
         return body
